@@ -92,6 +92,8 @@ M = [
  ("g-param-last-segment", ["C03:DM-mentions-param"], SU, "                    if let Some(s) = i.segments.iter().next() {", "                    if let Some(s) = i.segments.iter().last() {"),
  ("g-visitor-starts-true", ["C03:DM-mentions-param"], SU, "            generics: self,\n            result: false,", "            generics: self,\n            result: true,"),
  ("g-type-level-keeps-derive-ex", ["C04:ES-type-items-empty"], IT, "            derive_ex: false,\n            ..*self", "            derive_ex: true,\n            ..*self"),
+ ("g-kinds-never-filled", ["C01:ES-kinds-filled", "C14"], IT, "    let es = DeriveEntry::from_root(attr, &item.attrs)?;\n    kinds.extend(&es);\n    let hattrs = HelperAttributes::from_attrs(\n        &item.attrs,\n        AttributeTarget::Type,\n        &kinds.without_derive_ex(),\n    )?;\n    let fields", "    let es = DeriveEntry::from_root(attr, &item.attrs)?;\n    let hattrs = HelperAttributes::from_attrs(\n        &item.attrs,\n        AttributeTarget::Type,\n        &kinds.without_derive_ex(),\n    )?;\n    let fields"),
+ ("g-name-option-interpolated", ["C10"], IT, '                let name = field.member().to_string();\n                let name = name.strip_prefix("r#").unwrap_or(&name);', '                let name = field.member().to_string();\n                let name = name.strip_prefix("r#");'),
  # benign variants: every listed property must stay silent
  ("benign-rename-local", [], IT, "let use_bounds = e.push_bounds_to(&mut wcb);\n    let mut ctor_args = Vec::new();\n    let mut clone_from_exprs = Vec::new();", "let use_bounds = e.push_bounds_to(&mut wcb);\n    let mut ctor_args = Vec::new();\n    let mut clone_from_exprs = Vec::new();\n    let _unused_marker = 0;"),
 ]
